@@ -15,6 +15,8 @@ Reading guide
 The model mirrors the tree with the `fix:` commits of branch fix-c01 (see docs/C01.md).
 -/
 import EPV.Lemmas.AxesPath
+import EPV.Lemmas.AxesFlatten
+import EPV.Lemmas.AxesState
 namespace EPV.C01
 open EPV.XP EPV.XP.Spec
 
@@ -73,6 +75,37 @@ theorem anc_iff_closure (m : Mode) (a : Arr) (h : wfArr m a = true) (q i : Nat) 
         have := w.nest p q hpl h1.1 h1.2
         exact (isAnc_iff w hi).2 ⟨by omega, by omega⟩
     exact key hq hi
+
+/-! ## every finite tree -/
+
+/-- **flatten_wf.**  The pre-order array `Root.flatten r` of every finite XML tree `r` (document with
+its top-level comments / PIs / root element, Element root in the default form with elementpath's dummy
+document, or fragment; elements with any namespace nodes, attributes and children; text, comment
+and PI leaves) is well-formed — so every theorem about well-formed arrays below holds for all trees.
+The driver recomputes `flatten` from the nested tree the harness ships and compares it with the
+array the harness computed (`fl=1`). -/
+theorem flatten_wf (r : Root) : WF r.mode r.flatten := flatten_WF r
+
+/-- `axis_eq_spec` for every tree (no well-formedness hypothesis left). -/
+theorem axis_eq_spec_tree (r : Root) (ax : Axis) (n : Nat) (hn : n < r.flatten.length)
+    (hok : axisOK r.flatten ax n = true) :
+    iterAxis r.mode r.flatten ax n = (allNodes r.flatten).filter (onAxis r.mode r.flatten ax n) :=
+  axis_eq (flatten_WF r) hn ax hok
+
+/-- **path_eq_spec for every tree** (PARTIAL only in the finding triggers `safe`). -/
+theorem path_eq_spec_tree_partial (r : Root) (e : Expr) (t : Ty) (f : Focus) (ht : ty e = some t)
+    (hf : f.item < r.flatten.length) (hs : safe r.mode r.flatten e f = true) :
+    eval r.mode r.flatten e f = sem r.mode r.flatten e f :=
+  eval_eq_sem_aux (flatten_WF r) e t f ht hf hs
+
+/-- for every tree and safe typed path: the selected nodes are in document order, duplicate free -/
+theorem path_ordered_tree_partial (r : Root) (e : Expr) (f : Focus) (ht : ty e = some .path)
+    (hf : f.item < r.flatten.length) (hs : safe r.mode r.flatten e f = true) :
+    ∃ l, eval r.mode r.flatten e f = .nodes l ∧ l.Pairwise (· < ·) ∧ ∀ x ∈ l, x < r.flatten.length := by
+  rw [path_eq_spec_tree_partial r e .path f ht hf hs]
+  obtain ⟨l, hl⟩ := hasTy_path (sem_typed (m := r.mode) (a := r.flatten) e .path f ht)
+  have := sem_good e f l hf hl
+  exact ⟨l, hl, this.1, this.2⟩
 
 /-! ## the thirteen axes -/
 
@@ -180,8 +213,9 @@ theorem step_eq_spec_partial (m : Mode) (a : Arr) (hw : wfArr m a = true) (ax : 
 
 /-- **path_eq_spec (PARTIAL: findings F01b, F01c, F01i).**  For every well-formed tree, every
 root form, every expression `e` of the typed fragment (steps on all thirteen axes with name / kind
-tests, any number of predicates — numbers, `position()`/`last()` comparisons, paths, `and`/`or`/`not`
-—, `/`, `//`, leading `/` and `//`, `.`, `..`, `@`, parenthesised sub-paths) and every context
+tests, any number of predicates — numbers, `position()`/`last()`/`count()` comparisons, paths,
+`and`/`or`/`not` —, `/`, `//`, leading `/` and `//`, `.`, `..`, `@`, parenthesised sub-paths also as
+left operand `(e)/step`, unions `a | b`) and every context
 (node, position, size): the implementation's `select` returns exactly the value the
 specification defines — for node-sets: the same nodes, each once, in document order —
 provided no finding trigger is hit during the evaluation (`safe`).
@@ -233,6 +267,14 @@ theorem path_operator_ordered (m : Mode) (a : Arr) (l r : Expr) (f : Focus) (ls 
     · simp only [Val.nodes.injEq] at h; subst h; exact key _
     · cases h
 
+/-- `l | r` returns its nodes in document order without duplicates, unconditionally. -/
+theorem union_ordered (m : Mode) (a : Arr) (l r : Expr) (f : Focus) (ls : List Nat)
+    (h : eval m a (.union l r) f = .nodes ls) : ls.Pairwise (· < ·) := by
+  simp only [eval] at h
+  split at h
+  · simp only [Val.nodes.injEq] at h; subst h; exact sorted_isort _ (nodup_dedup _ [])
+  · cases h
+
 /-- The specification never yields an error on a typed expression, and its node-sets are strictly
 increasing lists of valid indices (so `path_eq_spec_partial` is not an equation between errors). -/
 theorem spec_total_ordered (m : Mode) (a : Arr) (e : Expr) (f : Focus) (ht : ty e = some .path)
@@ -241,6 +283,67 @@ theorem spec_total_ordered (m : Mode) (a : Arr) (e : Expr) (f : Focus) (ht : ty 
   obtain ⟨l, hl⟩ := hasTy_path (sem_typed (m := m) (a := a) e .path f ht)
   have := sem_good e f l hf hl
   exact ⟨l, hl, this.1, this.2⟩
+
+/-! ## the generator discipline of the iterators (`EPV/Model/AxesState.lean`)
+
+Each context iterator is transcribed statement by statement (`prog`): axis assignment, loop variable
+`self.item`, `yield`, restore of the saved `status`.  `exec` = run to exhaustion, `closeAfter k` = the
+consumer abandons the generator after the k-th yield. -/
+
+/-- Entered with `context.axis is None`, the statement-level transcription of every iterator
+yields exactly the list `iterAxis` that the axis theorems above are about. -/
+theorem iterator_yields (m : Mode) (a : Arr) (ax : Axis) (c : Ctx) (hc : c.axis = none) :
+    (exec (prog m a ax c) c).1.map (·.1) = iterAxis m a ax c.item := prog_yields ax c hc
+
+/-- **iterator_restores.**  On normal exhaustion every context iterator leaves `context.item` and
+`context.axis` exactly as it found them (any array, any entry state) — all axes except `namespace`. -/
+theorem iterator_restores (m : Mode) (a : Arr) (ax : Axis) (c : Ctx) (hns : ax ≠ .namespace) :
+    (exec (prog m a ax c) c).2 = c := prog_restores ax c hns
+
+/-- the `iter_descendants()` call of the `//` operator restores as well -/
+theorem dslash_iterator_restores (m : Mode) (a : Arr) (c : Ctx) :
+    (exec (progDslash m a c) c).2 = c := progDslash_restores c
+
+/-- The namespace axis has no restore: it leaves `context.item` on the last namespace node it
+yielded (harmless: see docs/C01.md — every caller re-assigns or restores the item before reading it). -/
+theorem namespace_axis_not_restored (m : Mode) (a : Arr) (c : Ctx) :
+    (exec (prog m a .namespace c) c).2 = ⟨((iterNamespaces a c.item).getLast?).getD c.item, c.axis⟩ :=
+  namespace_not_restored c
+
+/-- **iterator_trace.**  What the consumer observes at every `yield`: `context.axis` is the name of
+the iterator's axis and `context.item` is the yielded node — with exactly one exception: for the
+dummy document `iter_children_or_self` yields the root element while `context.item` still is the
+dummy document (the root cause of finding F01i). -/
+theorem iterator_trace (m : Mode) (a : Arr) (ax : Axis) (c : Ctx) (hc : c.axis = none)
+    (hns : ax ≠ .namespace) :
+    (exec (prog m a ax c) c).1 =
+      if ax = .child ∧ isED a c.item = true ∧ isDummyDoc m c.item = true then
+        [(rootIdx m, (⟨c.item, some .child⟩ : Ctx))]
+      else (iterAxis m a ax c.item).map fun x => (x, (⟨x, some ax⟩ : Ctx)) :=
+  prog_trace ax c hc hns
+
+/-- **step_from_state.**  Running the axis generator and, at each yield, the node test on the
+context *state* (`iter_matching_nodes` / `iter_children_or_self` with `context.axis` set test
+`context.item`) is the structural step semantics `evalStep` used by `eval` — the abstraction of the
+`context.axis` state machine is a theorem, and the F01i branch of `evalStep` is derived. -/
+theorem step_from_state (m : Mode) (a : Arr) (hw : wfArr m a = true) (ax : Axis) (t : Test) (c : Ctx)
+    (hc : c.axis = none) : evalStepState m a ax t c = evalStep m a ax t false c.item :=
+  evalStepState_eq ax t c hc (fun hv => ((wf_of_wfArr hw).v_is_doc hv).2.1 ▸ ((wf_of_wfArr hw).v_is_doc hv).2.2.1)
+
+/-- abbreviated steps (`x`, `*`, `node()`): the test loops over the iterator's yielded values -/
+theorem abbrev_step_from_state (m : Mode) (a : Arr) (t : Test) (c : Ctx) (hc : c.axis = none) :
+    evalAbbrevState m a t c = evalStep m a .child t true c.item := evalAbbrevState_eq t c hc
+
+/-- **early_close_not_restored.**  A loop iterator abandoned after its k-th yield leaves the
+context on the k-th yielded node with the iterator's axis set: the restore statement does not run
+(no `try/finally`).  Inside the fragment no consumer does that on a shared context — every consumer
+either exhausts the generator (`select_with_focus`: list comprehension; `[`: `list(...)`; `/`, `//`,
+`|`, `count`: loops to the end) or works on `copy(context)` (`boolean_value` of `and`/`or`/`not`
+operands and predicates) — docs/C01.md. -/
+theorem early_close_not_restored (ax : Option Axis) (l : List Nat) (c s : Ctx) (k : Nat) (hk : 0 < k)
+    (hl : k ≤ l.length) :
+    closeAfter k ([.setAxis ax] ++ loopItems l ++ [.restore s]) c = some ⟨l[k - 1]'(by omega), ax⟩ :=
+  closeAfter_loop ax l c s k hk hl
 
 /-! ## machine-checked witnesses of the known findings, and satisfiability of the hypotheses -/
 
@@ -289,6 +392,13 @@ theorem explicit_child_fails_on_dummy_document :
     eval .dummy w2 (.root (.step .child (.name "" "a") true)) ⟨1, 1, 1⟩ = .nodes [1] ∧
     sem .dummy w2 (.root (.step .child (.name "" "a") false)) ⟨1, 1, 1⟩ = .nodes [1] ∧
     safe .dummy w2 (.root (.step .child (.name "" "a") false)) ⟨1, 1, 1⟩ = false := by decide +kernel
+
+/-- witness: `iter_parent` from `c` (index 5 of `w1`) closed after its only yield leaves
+`context.item` on the parent `b` with `axis = 'parent'`; exhausted, it restores. -/
+theorem iter_parent_close_vs_exhaust :
+    closeAfter 1 (prog .frag w1 .parent ⟨5, none⟩) ⟨5, none⟩ = some ⟨2, some .parent⟩ ∧
+    (exec (prog .frag w1 .parent ⟨5, none⟩) ⟨5, none⟩).2 = ⟨5, none⟩ ∧
+    (exec (prog .frag w1 .namespace ⟨2, none⟩) ⟨2, none⟩).2 = ⟨3, none⟩ := by decide +kernel
 
 /-- The hypotheses of `path_eq_spec_partial` hold on a non-trivial state (test, on literals):
 `//*[not(c)]/preceding::*[1]/..` and `(//c/ancestor::*)[last()]/@k` hmm — a reverse axis with a
